@@ -28,20 +28,23 @@ NoUpd == [consulted |-> FALSE, completed |-> {}, active |-> {}, stale |-> {}]
 
 \* ever[t]: some incarnation of id t has been delivered.  A ghost that changes no expected value; it refines the
 \* VIEW so that states the implementation may distinguish (its persisted id cache) are explored separately.
-VARIABLES st, dl, ever, upd, hist
-vars == <<st, dl, ever, upd, hist>>
+\* reused[t]: the CURRENT incarnation of id t was created after an earlier incarnation of id t had been delivered
+\* (trial-id reuse): used only to tell the recorded id-reuse defect apart from any other missed delivery.
+VARIABLES st, dl, ever, reused, upd, hist
+vars == <<st, dl, ever, reused, upd, hist>>
 
 Start == Apply(InitSt, [rpc |-> "CreateStudy", s |-> S, cfg |-> "max1"]).st
-Init == st = Start /\ dl = [t \in Ids |-> FALSE] /\ ever = [t \in Ids |-> FALSE] /\ upd = NoUpd /\ hist = <<>>
+Init == st = Start /\ dl = [t \in Ids |-> FALSE] /\ ever = [t \in Ids |-> FALSE] /\ reused = [t \in Ids |-> FALSE] /\ upd = NoUpd /\ hist = <<>>
 
 CompletedIds(a) == {t \in IdsOf(a, S) : Completed(a.trial[S][t])}
 ActiveIds(a) == {t \in IdsOf(a, S) : a.trial[S][t].state = "ACTIVE"}
 
 \* dl after a call: a trial that disappeared or appeared starts undelivered
+Reuse(a, b) == [t \in Ids |-> IF a.trial[S][t] = Absent /\ b.trial[S][t] # Absent THEN ever[t] ELSE reused[t]]
 Carry(a, b, d) == [t \in Ids |-> IF a.trial[S][t] # Absent /\ b.trial[S][t] # Absent THEN d[t] ELSE FALSE]
 
 Plain(c) == LET r == Apply(st, c) IN
-            /\ st' = r.st /\ dl' = Carry(st, r.st, dl) /\ ever' = ever /\ upd' = NoUpd /\ hist' = Append(hist, c)
+            /\ st' = r.st /\ dl' = Carry(st, r.st, dl) /\ ever' = ever /\ reused' = Reuse(st, r.st) /\ upd' = NoUpd /\ hist' = Append(hist, c)
 
 Suggest(w, n) ==
   LET own  == {t \in IdsOf(st, S) : st.trial[S][t].state = "ACTIVE" /\ st.trial[S][t].client = w}
@@ -59,9 +62,10 @@ Suggest(w, n) ==
   IN /\ MaxTrialId(st, S) + k <= MaxId
      /\ st' = r.st
      \* stale: ids to be delivered now whose PREVIOUS incarnation was delivered (ghost, for diagnosing id-reuse defects only)
-     /\ upd' = IF consulted THEN [consulted |-> TRUE, completed |-> comp, active |-> ActiveIds(mid), stale |-> {t \in comp : ever[t]}] ELSE NoUpd
+     /\ upd' = IF consulted THEN [consulted |-> TRUE, completed |-> comp, active |-> ActiveIds(mid), stale |-> {t \in comp : reused[t]}] ELSE NoUpd
      /\ dl' = LET d2 == IF consulted THEN [t \in Ids |-> dl[t] \/ t \in comp] ELSE dl IN Carry(st, r.st, d2)
      /\ ever' = IF consulted THEN [t \in Ids |-> ever[t] \/ t \in comp] ELSE ever
+     /\ reused' = Reuse(st, r.st)
      /\ hist' = Append(hist, c)
 
 En(a) == a \in Acts /\ Len(hist) < MaxDepth
@@ -73,13 +77,17 @@ ARequest == En("request") /\ MaxTrialId(st, S) < MaxId /\ Plain([rpc |-> "Create
 ADelete == En("delete") /\ \E t \in Ids : Plain([rpc |-> "DeleteTrial", s |-> S, t |-> t])
 AStop == En("stop") /\ \E t \in Ids : Plain([rpc |-> "StopTrial", s |-> S, t |-> t])
 \* a server restart: nothing changes in the model (the driver builds a new servicer on the same database)
-ARestart == En("restart") /\ st' = st /\ dl' = dl /\ ever' = ever /\ upd' = NoUpd /\ hist' = Append(hist, [rpc |-> "Restart"])
+ARestart == En("restart") /\ st' = st /\ dl' = dl /\ ever' = ever /\ reused' = reused /\ upd' = NoUpd /\ hist' = Append(hist, [rpc |-> "Restart"])
 
-Next == ASuggest \/ AComplete \/ AAdd \/ ARequest \/ ADelete \/ AStop \/ ARestart
+\* the designer's persisted state becomes undecodable (e.g. a new release changed its format): the policy must start
+\* over with a fresh designer AND an empty cache, so everything completed is delivered again (third clause of C12)
+ABump == En("bump") /\ st' = st /\ dl' = [t \in Ids |-> FALSE] /\ ever' = ever /\ reused' = reused /\ upd' = NoUpd /\ hist' = Append(hist, [rpc |-> "Bump"])
+
+Next == ABump \/ ASuggest \/ AComplete \/ AAdd \/ ARequest \/ ADelete \/ AStop \/ ARestart
 Spec == Init /\ [][Next]_vars
 
 \* operations (which only grow) and metadata are irrelevant to delivery: keep them out of the fingerprint
-View == <<st.trial[S], dl, ever>>
+View == <<st.trial[S], dl, ever, reused>>
 Dump == PrintT(ToJson([hist |-> hist, stale |-> SeqOf(upd.stale),
                        upd |-> [consulted |-> upd.consulted, completed |-> SeqOf(upd.completed), active |-> SeqOf(upd.active)],
                        trial |-> st.trial[S]]))
